@@ -68,6 +68,9 @@ pub struct Recorder {
     frozen: bool,
     start: Instant,
     sample_budget: usize,
+    pub extra_nontrivial: u64,
+    pub partial_violations: u64,
+    pub partial_known: BTreeMap<String, u64>,
 }
 
 fn mix(a: u64, b: u64) -> u64 {
@@ -80,6 +83,28 @@ fn mix(a: u64, b: u64) -> u64 {
 
 impl Recorder {
     pub fn new(property: &str, tier: Tier, seed: u64) -> Self {
+        let mut r = Self::new_plain(property, tier, seed);
+        // counts carried over from worker processes that were killed (journaled-worker protocol)
+        if let Ok(v) = std::env::var("VERIF_CARRY") {
+            if let Ok(j) = serde_json::from_str::<Value>(&v) {
+                r.evaluations += j["evaluations"].as_u64().unwrap_or(0);
+                r.extra_nontrivial += j["distinct_nontrivial"].as_u64().unwrap_or(0);
+                if let Some(m) = j["known"].as_object() {
+                    for (k, n) in m {
+                        *r.partial_known.entry(k.clone()).or_insert(0) += n.as_u64().unwrap_or(0);
+                    }
+                }
+                if let Some(m) = j["classes"].as_object() {
+                    for (k, n) in m {
+                        *r.classes.entry(k.clone()).or_insert(0) += n.as_u64().unwrap_or(0);
+                    }
+                }
+            }
+        }
+        r
+    }
+
+    fn new_plain(property: &str, tier: Tier, seed: u64) -> Self {
         Recorder {
             property: property.to_string(),
             tier,
@@ -101,6 +126,9 @@ impl Recorder {
             frozen: false,
             start: Instant::now(),
             sample_budget: 3,
+            extra_nontrivial: 0,
+            partial_violations: 0,
+            partial_known: BTreeMap::new(),
         }
     }
     pub fn freeze(&mut self) {
@@ -187,14 +215,21 @@ impl Recorder {
         if let Some(l) = &self.last_sample {
             samples.push(l.clone());
         }
+        let known = {
+            let mut k = self.known_hits.clone();
+            for (a, b) in &self.partial_known {
+                *k.entry(a.clone()).or_insert(0) += b;
+            }
+            k
+        };
         let mut coverage = json!({
             "evaluations": self.evaluations,
-            "distinct_nontrivial": self.nontrivial.len(),
+            "distinct_nontrivial": (self.nontrivial.len() as u64 + self.extra_nontrivial),
             "rule": self.rule,
             "samples": samples,
             "classes": self.classes,
             "excluded": self.excluded,
-            "known_findings_hit": self.known_hits,
+            "known_findings_hit": known,
         });
         if !self.exhaustive_parts.is_empty() {
             coverage["exhaustive_parts"] = json!(self.exhaustive_parts);
@@ -210,20 +245,74 @@ impl Recorder {
             "coverage": coverage,
             "assumptions": self.assumptions,
             "wall_s": self.start.elapsed().as_secs_f64(),
-            "violations": self.violations.len(),
+            "violations": self.violations.len() as u64 + self.partial_violations,
         })
     }
 
     /// Writes evidence, replay files and prints VIOLATION / KNOWN-FINDING lines. Returns the
     /// process exit code.
+    /// Merges the evidence written by a sub-process (`VERIF_PARTIAL`) into this recorder.
+    pub fn merge_partial(&mut self, part: &Value) {
+        let c = &part["coverage"];
+        self.evaluations += c["evaluations"].as_u64().unwrap_or(0);
+        self.extra_nontrivial += c["distinct_nontrivial"].as_u64().unwrap_or(0);
+        if let Some(m) = c["classes"].as_object() {
+            for (k, v) in m {
+                *self.classes.entry(k.clone()).or_insert(0) += v.as_u64().unwrap_or(0);
+            }
+        }
+        if let Some(m) = c["excluded"].as_object() {
+            for (k, v) in m {
+                *self.excluded.entry(k.clone()).or_insert(0) += v.as_u64().unwrap_or(0);
+            }
+        }
+        if let Some(a) = c["samples"].as_array() {
+            for s in a.iter().take(4) {
+                self.first_samples.push(s.clone());
+            }
+        }
+        if let Some(r) = c["rule"].as_str() {
+            if !r.is_empty() {
+                self.rule = format!("{} || {}", self.rule, r);
+            }
+        }
+        if let Some(a) = part["assumptions"].as_array() {
+            for s in a {
+                if let Some(s) = s.as_str() {
+                    self.assumptions.push(s.to_string());
+                }
+            }
+        }
+        self.partial_violations += part["violations"].as_u64().unwrap_or(0);
+        if let Some(m) = c["known_findings_hit"].as_object() {
+            for (k, v) in m {
+                *self.partial_known.entry(k.clone()).or_insert(0) += v.as_u64().unwrap_or(0);
+            }
+        }
+    }
+
+    pub fn partial_path(property: &str) -> PathBuf {
+        verif_root().join("work").join(format!("partial-{}.json", property))
+    }
+
     pub fn finish(&self, findings: &crate::findings::Findings) -> i32 {
         let root = verif_root();
         let _ = std::fs::create_dir_all(root.join("evidence"));
         let _ = std::fs::create_dir_all(root.join("replays"));
+        let _ = std::fs::create_dir_all(root.join("work"));
         let ev = self.to_json();
-        let path = root.join("evidence").join(format!("{}.json", self.property));
+        let partial = std::env::var("VERIF_PARTIAL").is_ok();
+        let path = if partial { Self::partial_path(&self.property) } else { root.join("evidence").join(format!("{}.json", self.property)) };
         std::fs::write(&path, serde_json::to_string_pretty(&ev).unwrap()).expect("write evidence");
-        for (key, n) in &self.known_hits {
+        let mut all_known = self.known_hits.clone();
+        if !partial {
+            for (k, n) in &self.partial_known {
+                if !self.known_hits.contains_key(k) {
+                    all_known.insert(k.clone(), *n);
+                }
+            }
+        }
+        for (key, n) in all_known.iter().filter(|_| !partial) {
             println!(
                 "KNOWN-FINDING: property={} key={} hits={} {}",
                 self.property,
@@ -236,7 +325,7 @@ impl Recorder {
         for (i, v) in self.violations.iter().enumerate() {
             let rp = root
                 .join("replays")
-                .join(format!("{}-{}-{}.json", self.property, v.sub, i));
+                .join(format!("{}-{}-{}{}.json", self.property, v.sub, i, if partial { "g" } else { "" }));
             let body = json!({
                 "property": self.property,
                 "sub": v.sub,
@@ -412,5 +501,7 @@ pub fn catch<R>(f: impl FnOnce() -> R) -> Result<R, String> {
 
 /// Silence the default panic printer (panics are caught and reported as failures).
 pub fn quiet_panics() {
-    std::panic::set_hook(Box::new(|_| {}));
+    if std::env::var("VERIF_LOUD").is_err() {
+        std::panic::set_hook(Box::new(|_| {}));
+    }
 }
